@@ -131,6 +131,18 @@ def variadic (f : Int → Int → Int) : List Tensor → R Tensor
   | [] => fail
   | x :: xs => xs.foldlM (binop f) x
 
+/-- Integer `Div`: truncation toward zero (C / numpy `astype` of the true quotient). -/
+def divI (x y : Int) : Int := Int.tdiv x y
+
+/-- Integer `Mod`: `fmod = 1` → C `fmod` (remainder has the sign of the dividend);
+`fmod = 0` → Python `%` (remainder has the sign of the divisor). -/
+def modI (fmod : Bool) (x y : Int) : Int := if fmod then Int.tmod x y else Int.fmod x y
+
+/-- `Clip(x, min?, max?)`: `min(max(x, lo), hi)`. -/
+def clipI (lo hi : Option Int) (v : Int) : Int :=
+  let v1 := match lo with | some l => max v l | none => v
+  match hi with | some h => min v1 h | none => v1
+
 /-- Integer `Pow` (non-negative exponents only; negative exponent on integers is undefined). -/
 def powI (x y : Int) : Int := x ^ y.toNat
 
@@ -244,18 +256,27 @@ def sliceAmbiguous (dim : Nat) (start stop step : Int) : Bool :=
   let d : Int := dim
   dim != 0 && step < 0 && start + d < 0 && (if stop < 0 then stop + d else stop) < 0
 
+/-- Effective (normalised, clamped) start index: negative values count from the end; clamped into
+`[0, dim]` for positive and `[0, dim-1]` for negative stepping. -/
+def sliceStart (dim : Nat) (start step : Int) : Int :=
+  let d : Int := dim
+  if step > 0 then clampI 0 d (if start < 0 then start + d else start)
+  else clampI 0 (d - 1) (if start < 0 then start + d else start)
+
+/-- Effective end index: clamped into `[0, dim]` for positive and `[-1, dim-1]` for negative stepping. -/
+def sliceStop (dim : Nat) (stop step : Int) : Int :=
+  let d : Int := dim
+  if step > 0 then clampI 0 d (if stop < 0 then stop + d else stop)
+  else clampI (-1) (d - 1) (if stop < 0 then stop + d else stop)
+
 /-- Effective start, number of elements for one axis. -/
 def sliceAxis (dim : Nat) (start stop step : Int) : Int × Nat :=
-  let d : Int := dim
   if dim = 0 then (0, 0)
-  else if step > 0 then
-    let s := clampI 0 d (if start < 0 then start + d else start)
-    let e := clampI 0 d (if stop < 0 then stop + d else stop)
-    (s, ((e - s + step - 1) / step).toNat)
   else
-    let s := clampI 0 (d - 1) (if start < 0 then start + d else start)
-    let e := clampI (-1) (d - 1) (if stop < 0 then stop + d else stop)
-    (s, ((s - e + (-step) - 1) / (-step)).toNat)
+    let s := sliceStart dim start step
+    let e := sliceStop dim stop step
+    if step > 0 then (s, ((e - s + step - 1) / step).toNat)
+    else (s, ((s - e + (-step) - 1) / (-step)).toNat)
 
 /-- Normalised strided slice: element `idx` of the result is `x[start + idx * step]`. -/
 def sliceCore (x : Tensor) (starts steps : List Int) (dims : List Nat) : Tensor :=
@@ -607,6 +628,10 @@ def insertBy (before : (Int × Nat) → (Int × Nat) → Bool) (e : Int × Nat) 
 def sortBy (before : (Int × Nat) → (Int × Nat) → Bool) (l : List (Int × Nat)) : List (Int × Nat) :=
   l.foldr (insertBy before) []
 
+/-- TopK order on (value, index) pairs: larger (or smaller) value first, equal values by lower index. -/
+def topkBefore (largest : Bool) (a b : Int × Nat) : Bool :=
+  if a.1 == b.1 then decide (a.2 < b.2) else if largest then decide (a.1 > b.1) else decide (a.1 < b.1)
+
 /-- `TopK` (sorted): values and indices; ties broken by the lower index. -/
 def topk (x : Tensor) (k : Int) (axis : Int) (largest : Bool) : R (Tensor × Tensor) := do
   guardR (x.rank ≥ 1)
@@ -614,8 +639,7 @@ def topk (x : Tensor) (k : Int) (axis : Int) (largest : Bool) : R (Tensor × Ten
   let dim := getN x.shape ax
   guardR (0 ≤ k && k ≤ (dim : Int))
   let kk := k.toNat
-  let before := fun (a b : Int × Nat) =>
-    if a.1 == b.1 then decide (a.2 < b.2) else if largest then decide (a.1 > b.1) else decide (a.1 < b.1)
+  let before := topkBefore largest
   let lane := fun (idx : List Nat) =>
     sortBy before ((List.range dim).map (fun j => (x.get (withAt idx ax j), j)))
   let outShape := withAt x.shape ax kk
